@@ -2,7 +2,7 @@
 From Coq Require Import List NArith ZArith.
 From N0 Require Import Base.PyStr Base.PyVal Xpath.Dec Xpath.DecProofs Xpath.Token Xpath.TokenProofs
   Xpath.Find Xpath.FindProofs Xpath.Write Xpath.SpecProofs Xpath.WalkProofs Xpath.TokenizeProofs Xpath.EnumProofs
-  Xpath.FstrProofs Xpath.FanoutProofs Xpath.PredProofs Xpath.PredOpsProofs Xpath.PredNameOpsProofs Xpath.TextSpellProofs.
+  Xpath.FstrProofs Xpath.FanoutProofs Xpath.PredProofs Xpath.PredOpsProofs Xpath.PredNameOpsProofs Xpath.TextSpellProofs Xpath.ListRootProofs.
 Import ListNotations.
 
 (* For a list of dict records reached by a concrete path P, 'P/[*]/f' returns the values
@@ -103,6 +103,30 @@ Theorem C06_chained_example :
   dict_get_pub (fuel_for ch_orders ch_xp) ch_orders ch_xp = Ok (ch_orders, LVal (Lst true [Lst true [Leaf (SStr [51%N])]])).
 Proof. exact chained_example. Qed.
 Print Assumptions C06_chained_example.
+
+(* Below an element of a list-rooted container.  '[i]/rest' on a list root whose element i is a dictionary answers
+   exactly what 'rest' answers on that dictionary, and leaves the list as it is when the element is left as it is:
+   every theorem of this file (and of C01 / C04) about dict-rooted lookups transfers to records reached through an
+   index of a list root, whatever the index (since the "fix:" commit 1eca224; before it this held for element 0 only -
+   '..', which every key predicate uses, re-resolved '[i]' inside the element). *)
+Theorem C06_list_root_reduces :
+  forall fuel c items x x' y0 si z i c' kvs re rl dflt r,
+  has_path_char x = true -> has_path_char x' = true ->
+  tokenize x = y0 :: tokenize x' -> tokenize x' <> [] ->
+  split_name_index y0 = Ok ([], IdxStr si) -> plain_idx si -> n0eval si = EvInt z ->
+  norm_idx (length items) z = Some i -> nth_error items i = Some (Dict c' kvs) ->
+  dict_get_core fuel (Dict c' kvs) x' re rl dflt = Ok (Dict c' kvs, r) ->
+  list_get_core (S fuel) (Lst c items) x re rl dflt = Ok (Lst c items, r).
+Proof. exact list_root_reduces_pure. Qed.
+Print Assumptions C06_list_root_reduces.
+
+Theorem C06_list_root_nonvacuous :
+  tokenize lr_x = [91; 49; 93]%N :: tokenize pr_x /\ tokenize pr_x <> [] /\
+  split_name_index [91; 49; 93]%N = Ok ([], IdxStr [49]%N) /\ n0eval [49]%N = EvInt 1 /\
+  list_get_core (S (fuel_for pr_root pr_x)) lr_root lr_x true true LDefault
+  = Ok (lr_root, LVal (Lst true [Leaf (SInt 1); Leaf (SInt 3)])).
+Proof. exact list_root_example. Qed.
+Print Assumptions C06_list_root_nonvacuous.
 
 (* A record list that is empty: a predicate step on it is a miss for that list and nothing else (since the
    "fix:" commit 20793f6; before it the step raised IndexError there, which left an enclosing fan-out loop and
